@@ -146,6 +146,13 @@ func c12DrawCase(rt *rapid.T) *c12Case {
 		if rapid.IntRange(0, 5).Draw(rt, lbl+"test") == 0 {
 			name += "_test"
 		}
+		if rapid.IntRange(0, 11).Draw(rt, lbl+"longName") == 0 {
+			// a base name next to which no temporary file of the form
+			// ".<name>.gopatch-<n>" can be created
+			if base := name[strings.LastIndex(name, "/")+1:]; len(base) < 236 {
+				name += strings.Repeat("n", 236-len(base))
+			}
+		}
 		cs.Files[i].Name = name + ".go"
 		cs.Files[i].Mode = c12DrawMode(rt, lbl)
 		if i > 0 && rapid.IntRange(0, 5).Draw(rt, lbl+"hardLink") == 0 {
@@ -651,6 +658,17 @@ func evalC12(cs *c12Case) (sig, msg string, info c12Info) {
 				return "description-on-stdout:" + r.Mode, fmt.Sprintf("the description of change %d appears on stdout of mode %s:\n%s\n%s", i, r.Mode, trunc(r.Stdout, 600), cs.describe()), info
 			}
 		}
+	}
+
+	// A file that cannot be written back (a name too long for a temporary
+	// sibling) fails in the default mode only; what the dry runs show for it
+	// has nothing written to be compared with.
+	if strings.Contains(w.Stderr, "file name too long") {
+		if pr.Exit != df.Exit {
+			return "exit-differs", fmt.Sprintf("exit status: --print-only %d, --diff %d\n%s", pr.Exit, df.Exit, cs.describe()), info
+		}
+		info.class("unjudged:write-failure-in-default-mode")
+		return "", "", info
 	}
 
 	// Exit status.
